@@ -103,7 +103,7 @@ def mismatch_projects(rng, n):
 def run(tier, seed, replay=None):
     res = Result("C07", tier, seed, RULE)
     rng = rng_for(seed, "C07")
-    n = 400 if tier == "quick" else 5000
+    n = 400 if tier == "quick" else 25000
     projs = [projects.gen_valid_project(rng, cfg_for()) for _ in range(n)]
     projs += mismatch_projects(rng, 30 if tier == "quick" else 300)
     dirs, _ = workload.materialise(projs, "c07", seed=seed)
@@ -116,7 +116,7 @@ def run(tier, seed, replay=None):
     erng = rng_for(seed, "C07", "E")
     crates, expect = [], {}
     k = 0
-    while len(crates) < (2 if tier == "quick" else 8) and k < 200:
+    while len(crates) < (2 if tier == "quick" else 16) and k < 400:
         k += 1
         p = projects.gen_valid_project(erng, GenCfg(**{**cfg_for().__dict__, "var_pool": c01.E2E_VARS, "comp_pool": c01.E2E_COMPS, "p_empty_comp": 0}))
         try:
